@@ -8,6 +8,7 @@ package sessrun
 import (
 	"bytes"
 	"context"
+	"encoding/hex"
 	"errors"
 	"fmt"
 	"io"
@@ -152,6 +153,9 @@ type Event struct {
 	Fate string `json:"fate"`
 	A    int    `json:"a"` // auxiliary
 	B    int    `json:"b"`
+	Npp  int    `json:"npp"` // Tx: leading printable bytes of the nonce on the wire (-1: no nonce in this segment)
+	Nps  int    `json:"nps"` // Tx: leading bytes from the 64-character subset
+	Nfx  int    `json:"nfx"` // Tx: 1 if the nonce starts with one of the sender's configured fixed prefixes
 }
 
 // Result of a run.
@@ -258,6 +262,8 @@ type refSeg struct {
 }
 
 type wireState struct {
+	fixed  map[string][][]byte // ep -> configured fixed nonce prefixes
+	udp    bool
 	mu     sync.Mutex
 	flows  map[string]*flow // ep/sid
 	sidIdx map[uint32]int   // session id -> session index
@@ -303,6 +309,27 @@ func (w *wireState) describe(ep string, seg *refcodec.Segment) Event {
 	e := Event{Ev: "Tx", Ep: ep, S: idx, Pt: int(m.Type), Seq: int64(m.Seq), Una: int64(m.UnAck), Win: int(m.Win),
 		Frag: int(m.Frag), Plen: len(seg.Payload), Wlen: seg.WireLen, Pre: seg.Pad1End - seg.MetaTagEnd,
 		Suf: seg.Pad2End - seg.BodyTagEnd, Dig: seg.Digest(), Ok: true, A: int(m.Status), B: int(m.PayLen)}
+	e.Npp, e.Nps, e.Nfx = -1, -1, 0
+	if seg.NonceEnd > 0 {
+		e.Npp, e.Nps = 0, 0
+		for _, c := range seg.Nonce {
+			if c < 0x20 || c > 0x7e {
+				break
+			}
+			e.Npp++
+		}
+		for _, c := range seg.Nonce {
+			if !strings.ContainsRune(common.Common64Set, rune(c)) {
+				break
+			}
+			e.Nps++
+		}
+		for _, pre := range w.fixed[ep] {
+			if bytes.HasPrefix(seg.Nonce, pre) {
+				e.Nfx = 1
+			}
+		}
+	}
 	if refcodec.IsAck(m.Type) {
 		f.acks++
 		e.Tx = f.acks
@@ -383,6 +410,21 @@ func Run(sc *Scenario) (res *Result) {
 	}
 	ws := &wireState{flows: map[string]*flow{}, sidIdx: map[uint32]int{}, hashed: refcodec.HashedPassword(user, Pass)}
 	udp := sc.Transport == "udp"
+	ws.udp = udp
+	ws.fixed = map[string][][]byte{}
+	for ep, eff := range map[string]*appctlpb.TrafficPattern{"C": cEff, "S": sEff} {
+		n := eff.GetNonce()
+		if n.GetType() == appctlpb.NonceType_NONCE_TYPE_FIXED {
+			for _, hs := range n.GetCustomHexStrings() {
+				if b, err := hex.DecodeString(hs); err == nil {
+					ws.fixed[ep] = append(ws.fixed[ep], b)
+				}
+			}
+		}
+		rec.add(Event{Ev: "Pat", Ep: ep, Pt: int(n.GetType()), N: int(n.GetMinLen()), A: int(n.GetMaxLen()), B: b2i(n.GetApplyToAllUDPPacket()),
+			Win: int(eff.GetLowEntropy().GetMode()), Frag: int(eff.GetLowEntropy().GetMaskRotation()), Plen: len(ws.fixed[ep]), Off: -1,
+			Ok: eff.GetTcpFragment().GetEnable()})
+	}
 	rec.add(Event{Ev: "Cfg", Ep: sc.Transport, S: len(sc.Sessions), Wlen: sc.MTU,
 		Pre: padMax(cEff, true), Suf: padMax(cEff, false), A: padMax(sEff, true), B: padMax(sEff, false),
 		Fate: sc.Expect, N: len(sc.Tampers), Ok: sc.LossPct == 0 && len(sc.Faults) == 0 && sc.DupPct == 0 && sc.DelayPct == 0})
@@ -791,6 +833,13 @@ func (nilResolver) LookupIP(ctx context.Context, network, host string) ([]net.IP
 		return nil, errors.New("no such host")
 	}
 	return []net.IP{ip}, nil
+}
+
+func b2i(b bool) int {
+	if b {
+		return 1
+	}
+	return 0
 }
 
 func padMax(p *appctlpb.TrafficPattern, middle bool) int {
